@@ -212,6 +212,9 @@ func (a *asyncFifoRetryImpl) retry(ctx context.Context) (breakLoop bool) {
 			if errors.Is(err, storage.ErrUncertainResult) {
 				state = retryUnknownPut
 			}
+			// the rewrite is not known to have landed, so nothing has been emitted for the queued write yet:
+			// keep it queued and examine it again in next tick
+			return true
 		}
 	}
 
